@@ -94,6 +94,11 @@ static void plan_gen(DPlan *P, uint64_t seed, const RunOpts *o) {
         if (c18 && sim_rndn(3) == 0) c->kill_sys = 1 + (int)sim_rndn(60);
         else if (c18 && sim_rndn(2) == 0) c->copkill = 1 + (int)sim_rndn(14);   /* only matters for sessions that use externs */
     }
+    /* a co-process that cannot be (re)started makes the VM fall back to in-process FFI by design; a program whose extern
+     * kills its executor would then kill the daemon itself.  That combination is the documented fallback, not a client
+     * fault: co-process kills are not injected into plans that contain extern_die. */
+    { bool die = false; for (int i = 0; i < P->nclients; i++) die |= strcmp(P->c[i].prog, "extern_die") == 0;
+      if (die) for (int i = 0; i < P->nclients; i++) P->c[i].copkill = 0; }
     if (c18) {
         P->nbad = 1 + (int)sim_rndn(quick ? 6 : 12);
         for (int i = 0; i < P->nbad; i++) {
